@@ -267,6 +267,7 @@ def execute(plan, stats=None, check=True, want_events=True):
         s.cache = {}
         s.snaps = []
         s.tainted = False
+        s.snap_taint = []
         s.rlist = []
         sessions.append(s)
     same_curve_diff_metric = len(set((s.curve) for s in sessions)) < len(sessions)
@@ -309,11 +310,18 @@ def execute(plan, stats=None, check=True, want_events=True):
                 if rt in ('nd32', 'nd16'):
                     bump('probe.narrow_int_R')
                 if r_sess[0] == 'exc':
+                    if s.tainted:
+                        # after a diagnostic fault (EVICT / INTERRUPT) nothing is decided for this session
+                        diag.append({'step': k, 'oracle': 'O2', 'after': 'diagnostic fault (outside the property)',
+                                     'exception': r_sess[1]})
+                        events.append([k, stp['s'], 'Q', 'exc-after-diagnostic-fault'])
+                        continue
                     raise Violation('O2', k, 'query raised on valid input: ' + r_sess[1])
                 v = r_sess[1]
                 vb = _val(v)
                 events.append([k, stp['s'], 'Q', vb])
-                history.append((stp['s'], R, rt, vb))
+                if not s.tainted:
+                    history.append((stp['s'], R, rt, vb))
                 if before is not None:
                     nseg = len(R) - 1
                     grew = after - before
@@ -367,6 +375,7 @@ def execute(plan, stats=None, check=True, want_events=True):
                 events.append([k, stp['s'], 'RESTART'])
             elif op == 'SNAPSHOT':
                 s.snaps.append(copy.deepcopy(s.cache))
+                s.snap_taint.append(s.tainted)
                 bump('fault.SNAPSHOT')
                 events.append([k, stp['s'], 'SNAPSHOT', len(s.snaps) - 1])
             elif op == 'ROLLBACK':
@@ -378,6 +387,7 @@ def execute(plan, stats=None, check=True, want_events=True):
                     else:
                         bump('fault.idle')
                     s.cache = copy.deepcopy(s.snaps[j])
+                    s.tainted = s.snap_taint[j]
                 events.append([k, stp['s'], 'ROLLBACK', j])
             elif op == 'HANDOVER':
                 if s.mode != stp['mode']:
